@@ -191,7 +191,9 @@ func (p *conn) handshake() error {
 		_ = p.c.Close()
 		return mangos.ErrBadProto
 	}
+	p.Lock()
 	p.open = true
+	p.Unlock()
 	return nil
 }
 
